@@ -54,6 +54,8 @@ def _limbs(x):
 
 def _shape(rates):
     n = len(rates)
+    if n == 1:
+        return "single-event"
     ties = len(set(rates)) < n
     return "%s:%s" % ("odd" if n % 2 else "even", "ties" if ties else "distinct")
 
@@ -569,6 +571,150 @@ def _observations(ctx, exe):
     obs["all rates zero"] = crashes.get(1) or " / ".join(sum(results.get(1, [[]]), []))
 
 
+# ------------------------------------------------------------------------------------------
+BOHR2NM = 0.052917721092      # tools::conv::bohr2nm, the unit of the trajectory file
+LIFE_E = [0, 2, -1]           # site energies / kT: three different escape rates
+LIFE_T = [1e-14, 2e-14, 5e-13]
+
+
+def _lifetime(ctx, exe):
+    """The real KMCLifetime::RunVSSM (LoadGraph + ReadLifetimeFile before it) with scripted random numbers."""
+    import json
+    recs = []
+    for cfg in (("MCKmcLifeQuick.cfg", "MCKmcLife2Quick.cfg") if ctx.quick else ("MCKmcLifeThorough.cfg", "MCKmcLife2Thorough.cfg")):
+        res = vlib.tlc("huffman", "MCKmcLife", cfg=cfg, workers=4, timeout=1500)
+        vlib.tlc_must_hold(res, "KmcLife")
+        ctx.add_tlc(cfg[:-4], res)
+        recs += res.records
+    if not recs:
+        raise vlib.InfraError("no kmclifetime histories")
+    gkey = lambda r: json.dumps([r["n"], r["types"], r["pairs"]])
+    gdesc = lambda r: _graph_cmd(r, LIFE_E[:r["n"]], "s", [0, 0, 0], "*", "-")[len("graph "):] + " " + \
+        " ".join(repr(x) for x in LIFE_T[:r["n"]])
+    graphs = {}
+    for r in recs:
+        graphs.setdefault(gkey(r), r)
+    # phase 1: escape rates and selection intervals of the loaded graph
+    res1, cr1 = vlib.run_items(exe, [(k, ["lifeload " + gdesc(r)]) for k, r in sorted(graphs.items())])
+    info = {}
+    for k, r in sorted(graphs.items()):
+        if k in cr1:
+            ctx.violation("KMCLifetime:load:crash", "LoadGraph/ReadLifetimeFile died: " + cr1[k], r)
+            continue
+        lines = res1[k][0]
+        nodes, _, _ = _parse_nodes([l for l in lines if l.split()[0] in ("node", "pair")])
+        fail = [l for l in lines if l.startswith("runfailed") or l.startswith("findexc") or l.startswith("exc")]
+        if fail or len(nodes) != r["n"]:
+            ctx.violation("KMCLifetime:load:failed", "LoadGraph/ReadLifetimeFile failed: %s" % fail, r)
+            continue
+        part = {}
+        for l in lines:
+            t = l.split()
+            if t[0] == "part":
+                part[int(t[1])] = [(int(t[3 + 3 * j]), float(t[4 + 3 * j]), float(t[5 + 3 * j])) for j in range(int(t[2]))]
+        maxint = int(_line(lines, "maxint")[0])
+        info[k] = (nodes, part)
+        # injection draws a site index from [0, maxint]: must be the sites 0..n-1
+        if maxint != r["n"] - 1:
+            ctx.violation("KMC:injection:site-index-range",
+                          "LoadGraph configures site draws from [0,%d] for %d sites (indices 0..%d): index %d is past the "
+                          "end of nodes_" % (maxint, r["n"], r["n"] - 1, maxint), r)
+    items, used = [], []
+    n_two = n_hop_after = 0
+    for i, r in enumerate(recs):
+        if gkey(r) not in info:
+            continue
+        nodes, part = info[gkey(r)]
+        script = []
+        ok = True
+        for d in r["h"]:
+            if d["k"] == "site":
+                script.append("i %d" % d["v"])
+            elif d["k"] == "time":
+                script.append("u %r" % (1.0 - 2.0 ** -d["j"]))
+            elif d["k"] == "carrier":
+                esc = [nodes[x]["esc"] for x in d["at"]]
+                K = sum(esc)
+                u = sum(esc[:d["c"] - 1]) / K + 0.5 * esc[d["c"] - 1] / K
+                script.append("u %r" % (1.0 - u))
+            else:
+                cells = [c for c in part[d["node"]] if c[0] == d["e"]]
+                if not cells:
+                    ok = False
+                    break
+                w = max(cells, key=lambda c: c[2] - c[1])
+                script.append("u %r" % (1.0 - 0.5 * (w[1] + w[2])))
+        if not ok:
+            ctx.violation("KMCLifetime:event-without-interval", "an event of the loaded graph has no selection interval", r)
+            continue
+        items.append((i, ["liferun %s %d %d %d %s" % (gdesc(r), r["ncar"], r["insertions"], len(script), " ".join(script))]))
+        used.append(i)
+    results, crashes = vlib.run_items(exe, items)
+    for i in used:
+        r = recs[i]
+        ctx.traces += 1
+        ctx.nontriv(("life", i))
+        nodes, _ = info[gkey(r)]
+        n_two += r["ncar"] == 2
+        n_hop_after += len(r["traj"]) == 2 and r["traj"][1]["steps"] >= 2
+        tag = "%dcarrier" % r["ncar"]
+        if i in crashes:
+            ctx.violation("KMCLifetime:crash:" + tag, "RunVSSM died: " + crashes[i], r)
+            continue
+        lines = results[i][0]
+        fail = [l for l in lines if l.startswith("runfailed") or l.startswith("exc")]
+        if fail:
+            what = "draw-order" if "verif-script" in fail[0] else "exception"
+            ctx.violation("KMCLifetime:%s:%s" % (what, tag),
+                          "RunVSSM did not follow the scripted run: %s; draws %s" % (fail[0], [(d["k"], d.get("v", d.get("j", d.get("c", d.get("e"))))) for d in r["h"]]), r)
+            continue
+        left = int(_line(lines, "script")[3])
+        if left != 0:
+            ctx.violation("KMCLifetime:draw-order:" + tag, "%d scripted random numbers were not consumed" % left, r)
+            continue
+        # symbolic clock -> seconds with the escape rates of the loaded graph
+        dts = [st["j"] * LN2 / sum(nodes[x]["esc"] for x in st["at"]) for st in r["clock"]]
+        traj = [l.split()[1:] for l in lines if l.startswith("traj ")]
+        if len(traj) != len(r["traj"]):
+            ctx.violation("KMCLifetime:trajectory:lines:" + tag, "%d trajectory lines, expected %d" % (len(traj), len(r["traj"])), r)
+            continue
+        for k, (got, exp) in enumerate(zip(traj, r["traj"])):
+            sim = sum(dts[:exp["sim"]])
+            life = sum(dts[exp["born"]:exp["sim"]])
+            which = "first" if k == 0 else "after-reinjection"
+            if [int(got[1]), int(got[2]), int(got[4]), int(got[5])] != [exp["ins"], exp["id"], exp["steps"], exp["last"] + 1]:
+                ctx.violation("KMCLifetime:trajectory:bookkeeping:%s:%s" % (which, tag),
+                              "line %d: insertion/id/steps/site %s, expected %s" % (k, [got[1], got[2], got[4], got[5]],
+                                                                                   [exp["ins"], exp["id"], exp["steps"], exp["last"] + 1]), r)
+            if not vlib.close(float(got[0]), sim, 2e-5, 0):
+                ctx.violation("KMCLifetime:trajectory:simtime:%s:%s" % (which, tag),
+                              "line %d: simulated time %s, expected %r = sum of -ln(u)/K over %d steps" % (k, got[0], sim, exp["sim"]), r)
+            if not vlib.close(float(got[3]), life, 2e-5, 0):
+                ctx.violation("KMCLifetime:trajectory:lifetime:%s:%s" % (which, tag),
+                              "line %d: carrier lifetime %s, expected %r (waiting times with the escape rates of the sites "
+                              "occupied at each step)" % (k, got[3], life), r)
+            if any(not vlib.close(float(a), b * BOHR2NM, 2e-5, 1e-12) for a, b in zip(got[6:9], exp["trav"])):
+                ctx.violation("KMCLifetime:trajectory:travelled:%s:%s" % (which, tag), "line %d: %s nm, expected %s bohr" % (k, got[6:9], exp["trav"]), r)
+        occ = [float(x) for x in _line(lines, "occt")]
+        want = [0.0] * r["n"]
+        for dt, st in zip(dts, r["clock"]):
+            for x in st["at"]:
+                want[x] += dt
+        if any(not vlib.close(a, b, 1e-12, 0) for a, b in zip(occ, want)):
+            ctx.violation("KMCLifetime:occupation-time:" + tag,
+                          "occupation times %s, expected %s (every step adds -ln(u)/K_current to the occupied sites)" % (occ, want), r)
+        cs = _line(lines, "carriers")
+        for c, f in enumerate(r["final"]):
+            g_id, g_node, g_life, g_steps = int(cs[4 * c]), int(cs[4 * c + 1]), float(cs[4 * c + 2]), int(cs[4 * c + 3])
+            if [g_id, g_node, g_steps] != [f["id"], f["node"], f["steps"]] or not vlib.close(g_life, sum(dts[f["born"]:]), 1e-12, 1e-30):
+                ctx.violation("KMCLifetime:final-carrier:" + tag, "carrier %d ends as id/site/steps/lifetime %s, expected %s"
+                              % (c, [g_id, g_node, g_steps, g_life], [f["id"], f["node"], f["steps"], sum(dts[f["born"]:])]), r)
+    ctx.extra["kmclifetime_runs"] = len(used)
+    if n_two == 0 or n_hop_after == 0:
+        raise vlib.InfraError("vacuous: no two-carrier run / no run with steps after a re-injection")
+    ctx.sample({"kmclifetime_run": recs[used[len(used) // 2]]})
+
+
 KT = {1: 2.0 ** -10, 2: 3.0 * 2.0 ** -11}     # Hartree (308 K, 462 K)
 
 
@@ -668,6 +814,53 @@ def _marcus(ctx, exe):
         raise vlib.InfraError("vacuous: Marcus lattice lacks unequal-reorganisation, inverted-region or uphill points")
 
 
+def _marcus_field(ctx, exe):
+    """Detailed balance w.r.t. the field for field strengths from 1e-13 to 1e-1 atomic units."""
+    res = vlib.tlc("marcus", "MCMarcusField", cfg="MCMarcusField.cfg", workers=4, timeout=1200)
+    vlib.tlc_must_hold(res, "MarcusField: detailed balance coefficient-wise in the field strength")
+    ctx.add_tlc("MCMarcusField", res)
+    vecs = res.records
+    items, decades = [], set()
+    for i, r in enumerate(vecs):
+        kT = KT[r["tk"]]
+        sc = 2.0 ** r["e"]
+        F = [x * kT * sc for x in r["d"]]
+        R = [x * 2.0 ** -r["rs"] for x in r["r"]]
+        h = r["lam"] * kT / 2.0
+        if r["q"] != 0 and r["m"] != 0:
+            decades.add(int(math.floor(math.log10(math.sqrt(sum(f * f for f in F))))))
+        items.append((i, ["marcus %s %r %s %s %r 0.0 %r %r 0.0 0.0 %r %r 0.0 %r"
+                          % (r["c"], kT, " ".join(repr(f) for f in F), " ".join(repr(x) for x in R),
+                             r["a"] * kT, h, h, h, h, J0)]))
+    if not set(range(-12, -1)) <= decades:
+        raise vlib.InfraError("vacuous: field-strength decades covered %s" % sorted(decades))
+    results, crashes = vlib.run_items(exe, items)
+    for i, r in enumerate(vecs):
+        ctx.count()
+        kT = KT[r["tk"]]
+        fabs = math.sqrt(sum(x * x for x in r["d"])) * kT * 2.0 ** r["e"]
+        cls = "%s:%s" % ("weak-field" if fabs < 1e-6 else "medium-field" if fabs < 1e-3 else "strong-field", r["c"])
+        if r["q"] != 0 and r["m"] != 0:
+            ctx.nontriv(("field", r["c"], r["e"], r["rs"], r["m"], r["a"], r["lam"]))
+        if i in crashes or _exc(results[i]):
+            ctx.violation("Marcus:exception:" + cls, "Rate_Engine::Rate failed on %s: %s" % (r, crashes.get(i) or _exc(results[i])), r)
+            continue
+        k12, k21 = [float(t) for t in _line(results[i][0], "rates")]
+        if not (k12 > 0 and k21 > 0 and math.isfinite(k12) and math.isfinite(k21)):
+            ctx.violation("Marcus:positive:" + cls, "rates %r %r for %s" % (k12, k21, r), r)
+            continue
+        term = r["m"] * 2.0 ** (r["e"] - r["rs"])          # q F.R / kT, exact dyadic
+        exp = r["a"] + term
+        tol = 1e-11 + 1e-13 * (r["lam"] + abs(exp)) ** 2 / (4.0 * r["lam"])
+        got = math.log(k12 / k21)
+        if abs(got - exp) > tol:
+            ctx.violation("Marcus:detailed-balance:" + cls,
+                          "|F| = %.3g a.u.: ln(k12/k21) = %r, detailed balance demands (E1-E2)/kT + qF.R/kT = %d + %r for %s"
+                          % (fabs, got, r["a"], term, r), r)
+    ctx.extra["marcus_field_vectors"] = len(vecs)
+    ctx.extra["marcus_field_decades"] = sorted(decades)
+
+
 def _wait(ctx, exe):
     res = vlib.tlc("marcus", "MCWait", cfg="MCWait.cfg", workers=2, timeout=600)
     vlib.tlc_must_hold(res, "Wait: survival function of the inverse-transform waiting time is exponential")
@@ -725,7 +918,9 @@ def run(ctx):
     _huffman_wide(ctx, exe)
     _graph(ctx, exe)
     _walk(ctx, exe)
+    _lifetime(ctx, exe)
     _marcus(ctx, exe)
+    _marcus_field(ctx, exe)
     _wait(ctx, exe)
     _observations(ctx, exe)
     ctx.exhaustive = False
